@@ -5,6 +5,7 @@
 package mcp
 
 import (
+	"bufio"
 	"bytes"
 	"context"
 	"crypto/rand"
@@ -397,9 +398,13 @@ func (c *SSEClientTransport) Connect(ctx context.Context) (Connection, error) {
 		return nil, fmt.Errorf("failed to connect: %s", http.StatusText(resp.StatusCode))
 	}
 
+	// One buffered reader for the whole stream: scanEvents reads ahead, so
+	// whatever arrived together with the endpoint event must stay available to
+	// the scan that follows.
+	events := bufio.NewReader(resp.Body)
 	msgEndpoint, err := func() (*url.URL, error) {
 		var evt Event
-		for evt, err = range scanEvents(resp.Body) {
+		for evt, err = range scanEvents(events) {
 			break
 		}
 		if err != nil {
@@ -428,7 +433,7 @@ func (c *SSEClientTransport) Connect(ctx context.Context) (Connection, error) {
 	go func() {
 		defer s.Close() // close the transport when the GET exits
 
-		for evt, err := range scanEvents(resp.Body) {
+		for evt, err := range scanEvents(events) {
 			if err != nil {
 				return
 			}
